@@ -1255,7 +1255,7 @@ func (x *pexec) doReadAt(op *Op) string {
 		var got []byte
 		var cnt int
 		var err error
-		pn, hang := x.call(x.budget(n), func() {
+		pn, hang := x.call(x.budget(minInt(n, x.bc.BufferSize+8)), func() {
 			if op.K == "PeekAt" {
 				got, err = x.pb.PeekAt(n, int64(pos))
 				cnt = len(got)
